@@ -137,6 +137,15 @@ def run(ctx):
                 if key:
                     rep["finding_key"] = key
                 ctx.violation(f"{name} changed the result: " + d, rep)
+            elif uniq and name.startswith("pad") and not isinstance(o2, tuple) and rng.random() < 0.6:
+                # the processing pair evaluate() hands back as its first intermediate step, evaluated again through the public
+                # panoptic_evaluate with the same components, must give the same result -- for the embedded input as well
+                s2 = impl.second_stage(cfg, o2)
+                ctx.bump("second stage on the returned pair")
+                d2 = meta.same_outcome(o2, s2)
+                if d2:
+                    ctx.violation(f"re-evaluating the pair returned by evaluate() on the {name} input changed the result: " + d2,
+                                  {"cfg": cfg, "pred": p, "ref": r, "transform": name, "pred2": p2, "ref2": r2, "second_stage": True})
     # single slices stored as volumes (an axis of length 1), default backend: padding along the thin axis, moving the thin axis
     for _ in range(ctx.scale(30, 250)):
         h, w = rng.randint(3, 6), rng.randint(3, 7)
@@ -191,4 +200,8 @@ def replay(path):
     o1, o2 = meta.run_both(d["cfg"], *a)
     diff = meta.same_outcome(o1, o2)
     print("difference:", diff)
+    if d.get("second_stage"):
+        s2 = impl.second_stage(d["cfg"], o2)
+        diff = meta.same_outcome(o2, s2)
+        print("second stage (panoptic_evaluate on the pair returned for the transformed input) vs first stage:", diff)
     return 1 if diff else 0
